@@ -37,7 +37,7 @@ def HASHSEEDS(tier):
 def budget(tier):
     if tier == "quick":
         return {"examples": 600, "shards": 2}
-    return {"examples": 1500, "shards": 16}
+    return {"examples": 6000, "shards": 16}
 
 
 @st.composite
